@@ -1350,6 +1350,18 @@ def check_typelevel(ctx, rule, prefix, minimum, unit="typelevel"):
         ctx.inst(rule, "repository static_assert: %s" % e["text"][:120], False, "%s:%s" % (e["file"], e["line"]),
                  "the repository's own compile-time check fails when the class is instantiated")
     if other:
+        in_repo = [e for e in other if e["file"].startswith(ROOT)]
+        if in_repo and len(in_repo) == len(other):
+            # the witness expressions no longer compile because of a construct in the repository's headers: that is a
+            # verdict (the type-level property does not hold), not a failure of the analysis
+            seen2 = set()
+            for e in in_repo[:4]:
+                if e["text"] in seen2:
+                    continue
+                seen2.add(e["text"])
+                ctx.inst(rule, "witness unit: %s" % e["text"][:120], False, "%s:%s" % (e["file"], e["line"]),
+                         "the type-level witnesses no longer compile: %s" % e["text"][:200])
+            return
         raise AnalysisBroken("type-level witness unit does not compile: %s" % "; ".join(
             "%s:%s: %s" % (e["file"], e["line"], e["text"]) for e in other[:3]))
     n = 0
